@@ -6,3 +6,7 @@ import LyModel.Props.C02
 #print axioms LyModel.Props.C02.dup_hash_eq_scan
 #print axioms LyModel.Props.C02.cases_correct
 #print axioms LyModel.Props.C02.cases_fresh
+#print axioms LyModel.Props.C02.dup_family
+#print axioms LyModel.Props.C02.dup_family_loop
+#print axioms LyModel.Props.C02.minmax_family
+#print axioms LyModel.Props.C02.state_family
